@@ -22,19 +22,46 @@ import (
 )
 
 type c03CLICase struct {
-	Cmd     string `json:"cmd"` // extract | cat | untar
-	Digest  string `json:"digest"`
-	Unc     bool   `json:"uncompressed"`
-	Plant   string `json:"plant"`
-	Where   string `json:"where"` // store | cache | cache-norepair
-	Skip    bool   `json:"skip_verify"`
-	BlobHex string `json:"blob_hex,omitempty"`
-	Sizes   []int  `json:"sizes,omitempty"`
-	Target  int    `json:"target_chunk"`
-	ObjHex  string `json:"planted_object_hex"`
-	Exit    int    `json:"exit"`
-	Stderr  string `json:"stderr,omitempty"`
-	Same    bool   `json:"output_identical"`
+	Cmd        string `json:"cmd"` // cat | cat-range | extract | extract-k | untar | cache
+	Digest     string `json:"digest"`
+	Unc        bool   `json:"uncompressed"`
+	Plant      string `json:"plant"`
+	Damaged    string `json:"damaged"`                     // store | cache : where the damaged object lies
+	Cache      string `json:"cache_option"`                // "" | repair (-c, the default --cache-repair) | norepair (-c --cache-repair=false)
+	PrintStats bool   `json:"print_stats,omitempty"`       // extract --print-stats
+	N          int    `json:"n,omitempty"`                 // -n
+	Stores     string `json:"stores"`                      // one | empty-first | empty-last | ssh
+	CacheSkip  bool   `json:"cache_skip_verify,omitempty"` // skip-verify in the config file for the cache only
+	Skip       bool   `json:"skip_verify,omitempty"`       // skip-verify for everything (control)
+	Stale      bool   `json:"stale_target,omitempty"`      // extract: the target exists with old content
+	BlobHex    string `json:"blob_hex,omitempty"`
+	Sizes      []int  `json:"sizes,omitempty"`
+	Target     int    `json:"target_chunk"`
+	ObjHex     string `json:"planted_object_hex"`
+	Args       string `json:"command_line,omitempty"`
+	Exit       int    `json:"exit"`
+	Stderr     string `json:"stderr,omitempty"`
+	Same       bool   `json:"output_identical"`
+}
+
+func (c *c03CLICase) options() string {
+	o := c.Cmd + "|stores=" + c.Stores
+	if c.Cache != "" {
+		o += "|cache=" + c.Cache
+	}
+	if c.PrintStats {
+		o += "|print-stats"
+	}
+	if c.N > 0 {
+		o += fmt.Sprintf("|n=%d", c.N)
+	}
+	if c.CacheSkip {
+		o += "|cache-skip-verify"
+	}
+	if c.Stale {
+		o += "|stale-target"
+	}
+	return o + "|damaged=" + c.Damaged
 }
 
 var c03LastStderr string
@@ -129,6 +156,11 @@ func c03SameTree(a, b map[string]string) bool {
 	return true
 }
 
+// damage kinds after which the object still decodes (in an uncompressed store every damage does)
+var c03Decodable = []string{"other-same-size", "other-chunk", "other-zstd", "double-comp", "append-frame"}
+var c03DecodableUnc = []string{"other-same-size", "other-chunk", "flip-mid", "flip-rand", "trunc-half", "garbage", "format-swap", "append-byte"}
+var c03Undecodable = []string{"flip-first", "empty", "trunc-1", "garbage", "missing"}
+
 func c03CLI(e *c03Env, rnd *vh.Rand) error {
 	bin := os.Getenv("VH_DESYNC")
 	if bin == "" {
@@ -136,48 +168,83 @@ func c03CLI(e *c03Env, rnd *vh.Rand) error {
 		return nil
 	}
 	os.Setenv("CASYNC_REMOTE_PATH", bin) // the ssh cases here talk to `desync pull`
-	plants := []string{"flip-first", "flip-last", "flip-mid", "flip-rand", "empty", "trunc-1", "trunc-len-1", "trunc-half",
-		"other-chunk", "other-same-size", "other-zstd", "format-swap", "double-comp", "garbage", "append-byte", "append-frame", "missing", "good"}
-	reps := 1
-	if e.a.Tier == "thorough" {
-		reps = 6
+	thorough := e.a.Tier == "thorough"
+	// option combinations that could change the path a chunk takes to the consumer
+	type combo struct {
+		cmds []string
+		c    c03CLICase
 	}
-	n := 0
-	for rep := 0; rep < reps; rep++ {
-		for _, cmd := range []string{"extract", "cat", "untar"} {
-			for _, unc := range []bool{false, true} {
-				use := plants
-				if e.a.Tier != "thorough" { // quick: the same-size foreign chunk, the intact store, two more kinds
-					use = []string{"other-same-size", "good"}
-					for len(use) < 4 {
-						use = append(use, plants[rnd.Intn(len(plants)-1)])
-					}
+	all := []string{"cat", "cat-range", "extract", "extract-k", "untar", "cache"}
+	readers := []string{"cat", "cat-range", "extract", "extract-k", "untar"}
+	ex := []string{"extract", "extract-k"}
+	combos := []combo{
+		{all, c03CLICase{Damaged: "store", Stores: "one"}},
+		{readers, c03CLICase{Damaged: "store", Stores: "one", Cache: "repair"}},
+		{readers, c03CLICase{Damaged: "store", Stores: "one", Cache: "norepair"}},
+		{readers, c03CLICase{Damaged: "cache", Stores: "one", Cache: "repair"}},
+		{readers, c03CLICase{Damaged: "cache", Stores: "one", Cache: "norepair"}},
+		{readers, c03CLICase{Damaged: "store", Stores: "one", Cache: "repair", CacheSkip: true}},
+		{ex, c03CLICase{Damaged: "store", Stores: "one", PrintStats: true}},
+		{ex, c03CLICase{Damaged: "store", Stores: "one", PrintStats: true, Cache: "repair"}},
+		{ex, c03CLICase{Damaged: "cache", Stores: "one", PrintStats: true, Cache: "norepair"}},
+		{ex, c03CLICase{Damaged: "store", Stores: "one", PrintStats: true, Stale: true}},
+		{ex, c03CLICase{Damaged: "store", Stores: "one", Stale: true}},
+		{all, c03CLICase{Damaged: "store", Stores: "one", N: 1}},
+		{readers, c03CLICase{Damaged: "store", Stores: "one", N: 3, Cache: "repair"}},
+		{all, c03CLICase{Damaged: "store", Stores: "empty-first"}},
+		{readers, c03CLICase{Damaged: "store", Stores: "empty-last", Cache: "repair"}},
+		{[]string{"cat", "extract"}, c03CLICase{Damaged: "store", Stores: "ssh"}},
+		{[]string{"cat", "extract"}, c03CLICase{Damaged: "store", Stores: "ssh", Cache: "repair"}},
+	}
+	n, ncombo := 0, 0
+	kinds := map[string]bool{}
+	optsSeen := map[string]bool{}
+	for _, cb := range combos {
+		if cb.c.Stores == "ssh" && !e.sshOK {
+			continue
+		}
+		cmds := cb.cmds
+		if !thorough { // quick: two of the commands per combination (untar is the expensive one)
+			i := rnd.Intn(len(cmds))
+			cmds = []string{cmds[i], cmds[(i+1+rnd.Intn(len(cmds)-1))%len(cmds)]}
+			if len(cb.cmds) == 1 {
+				cmds = cb.cmds
+			}
+		}
+		for _, cmd := range cmds {
+			ncombo++
+			unc := rnd.Bool()
+			if cb.c.Stores == "ssh" {
+				unc = false // `desync pull` serves the store with its default options
+			}
+			var plants []string
+			dec := c03Decodable
+			if unc {
+				dec = c03DecodableUnc
+			}
+			plants = append(plants, "other-same-size", dec[rnd.Intn(len(dec))])
+			if thorough {
+				plants = append(append(append([]string{}, dec...), c03Undecodable...), "good")
+			} else if rnd.Chance(1, 3) {
+				plants = append(plants, c03Undecodable[rnd.Intn(len(c03Undecodable))])
+			} else if rnd.Chance(1, 4) {
+				plants = append(plants, "good")
+			}
+			for _, plant := range plants {
+				c := cb.c
+				c.Cmd, c.Unc, c.Plant = cmd, unc, plant
+				c.Digest = []string{"sha512-256", "sha256"}[rnd.Intn(2)]
+				if plant == "missing" && c.Damaged == "cache" {
+					continue
 				}
-				for _, plant := range use {
-					where := "store"
-					switch rnd.Intn(6) {
-					case 0:
-						where = "cache"
-					case 1:
-						where = "cache-norepair"
-					}
-					if plant == "missing" {
-						where = "store"
-					}
-					if !unc && e.sshOK && rnd.Chance(1, 3) {
-						where = "ssh" // the store is reached through RemoteSSH and a `desync pull` child
-					}
-					c := &c03CLICase{Cmd: cmd, Unc: unc, Plant: plant, Where: where, Digest: "sha512-256"}
-					if rnd.Chance(1, 3) {
-						c.Digest = "sha256"
-					}
-					n++
-					if e.hangs[cmd] >= 2 {
-						continue // this command already hung twice; each hang costs the full timeout
-					}
-					if err := c03CLIOne(e, rnd, bin, c, n); err != nil {
-						return err
-					}
+				if e.hangs[cmd] >= 2 {
+					continue // this command already hung twice; each hang costs the full timeout
+				}
+				n++
+				kinds[plant] = true
+				optsSeen[c.options()] = true
+				if err := c03CLIOne(e, rnd, bin, &c, n); err != nil {
+					return err
 				}
 			}
 		}
@@ -185,8 +252,9 @@ func c03CLI(e *c03Env, rnd *vh.Rand) error {
 	// control: with verification disabled in the store's config a same-size foreign chunk gets
 	// through -- the predicate can see a violation when there is one
 	seen := 0
-	for i := 0; i < 6; i++ {
-		c := &c03CLICase{Cmd: []string{"extract", "cat"}[i%2], Unc: i%4 < 2, Plant: "other-same-size", Where: "store", Digest: "sha512-256", Skip: true}
+	nctl := 3
+	for i := 0; i < nctl; i++ {
+		c := &c03CLICase{Cmd: []string{"extract", "cat", "extract-k"}[i%3], Unc: i%2 == 0, Plant: "other-same-size", Damaged: "store", Stores: "one", Digest: "sha512-256", Skip: true}
 		n++
 		if err := c03CLIOne(e, rnd, bin, c, n); err != nil {
 			return err
@@ -195,7 +263,8 @@ func c03CLI(e *c03Env, rnd *vh.Rand) error {
 			seen++
 		}
 	}
-	e.r.Note("control (skip-verify set in the store options, same-size foreign chunk planted): %d of 6 pipeline runs exited 0 with output differing from the blob, i.e. the predicate detects wrong bytes when verification is off", seen)
+	e.r.Note("CLI stage: %d runs of the desync binary = %d (command x option combination) pairs [%d distinct option sets over cat, cat -o/-l, extract, extract -k, untar -i, cache: -c with and without --cache-repair, damaged object in the store or in the cache, skip-verify for the cache only, --print-stats, stale target, -n 1/3, several -s, ssh://] x %d damage kinds (2-3 per pair, mostly kinds after which the object still decodes); judged by: exit 0 => output equals the indexed blob/tree", n-nctl, ncombo, len(optsSeen), len(kinds))
+	e.r.Note("control (skip-verify set in the store options, same-size foreign chunk planted): %d of %d pipeline runs exited 0 with output differing from the blob, i.e. the predicate detects wrong bytes when verification is off", seen, nctl)
 	return nil
 }
 
@@ -203,17 +272,20 @@ func c03CLIOne(e *c03Env, rnd *vh.Rand, bin string, c *c03CLICase, n int) error 
 	work := filepath.Join(e.a.Work, fmt.Sprintf("cli%d", n))
 	defer os.RemoveAll(work)
 	store := filepath.Join(work, "store")
+	store2 := filepath.Join(work, "store2") // an empty second store
 	cache := filepath.Join(work, "cache")
-	os.MkdirAll(store, 0755)
-	os.MkdirAll(cache, 0755)
+	for _, d := range []string{store, store2, cache} {
+		os.MkdirAll(d, 0755)
+	}
 	if c.Digest == "sha256" {
 		desync.Digest = desync.SHA256{}
 	} else {
 		desync.Digest = desync.SHA512256{}
 	}
 	cfg := map[string]interface{}{"store-options": map[string]interface{}{
-		store: map[string]interface{}{"uncompressed": c.Unc, "skip-verify": c.Skip},
-		cache: map[string]interface{}{"uncompressed": c.Unc, "skip-verify": c.Skip},
+		store:  map[string]interface{}{"uncompressed": c.Unc, "skip-verify": c.Skip},
+		store2: map[string]interface{}{"uncompressed": c.Unc, "skip-verify": c.Skip},
+		cache:  map[string]interface{}{"uncompressed": c.Unc, "skip-verify": c.Skip || c.CacheSkip},
 	}}
 	cfgFile := filepath.Join(work, "config.json")
 	cb, _ := json.Marshal(cfg)
@@ -292,7 +364,7 @@ func c03CLIOne(e *c03Env, rnd *vh.Rand, bin string, c *c03CLICase, n int) error 
 		}
 		f.Close()
 	}
-	// poison one chunk
+	// damage one chunk
 	c.Target = rnd.Intn(len(ids))
 	d := datas[c.Target]
 	d2 := datas[(c.Target+1+rnd.Intn(len(ids)))%len(ids)]
@@ -300,7 +372,7 @@ func c03CLIOne(e *c03Env, rnd *vh.Rand, bin string, c *c03CLICase, n int) error 
 		d2 = append(append([]byte{}, d...), 1)
 	}
 	dir := store
-	if c.Where == "cache" || c.Where == "cache-norepair" {
+	if c.Damaged == "cache" {
 		dir = cache
 	}
 	if obj, ok := c03Plant(rnd, c.Plant, d, d2, c.Unc); ok {
@@ -309,25 +381,61 @@ func c03CLIOne(e *c03Env, rnd *vh.Rand, bin string, c *c03CLICase, n int) error 
 			return nil
 		}
 		c.ObjHex = vh.Hex(obj)
+		if len(c.ObjHex) > 400 {
+			c.ObjHex = c.ObjHex[:400] + "..."
+		}
 		if err := c03WriteObj(dir, ids[c.Target], c.Unc, obj); err != nil {
 			return err
 		}
 	} else if c.Plant == "missing" {
 		os.Remove(filepath.Join(store, ids[c.Target][:4], ids[c.Target]+c03Ext(c.Unc)))
 	}
-	storeArgs := []string{"-s", store}
-	switch c.Where {
+	var storeArgs []string
+	switch c.Stores {
+	case "empty-first":
+		storeArgs = []string{"-s", store2, "-s", store}
+	case "empty-last":
+		storeArgs = []string{"-s", store, "-s", store2}
 	case "ssh":
 		storeArgs = []string{"-s", "ssh://localhost" + store}
-	case "cache":
-		storeArgs = append(storeArgs, "-c", cache)
-	case "cache-norepair":
-		storeArgs = append(storeArgs, "-c", cache, "--cache-repair=false")
+	default:
+		storeArgs = []string{"-s", store}
 	}
+	if c.Cmd != "cache" {
+		switch c.Cache {
+		case "repair":
+			storeArgs = append(storeArgs, "-c", cache)
+		case "norepair":
+			storeArgs = append(storeArgs, "-c", cache, "--cache-repair=false")
+		}
+	}
+	if c.N > 0 {
+		storeArgs = append(storeArgs, "-n", fmt.Sprint(c.N))
+	}
+	run := func(stdout *bytes.Buffer, args ...string) int {
+		full := append(append([]string{}, base...), args...)
+		c.Args = "desync " + strings.Join(full, " ")
+		return c03Run(20*time.Second, stdout, bin, full...)
+	}
+	out := filepath.Join(work, "out")
 	switch c.Cmd {
-	case "extract":
-		out := filepath.Join(work, "out")
-		c.Exit = c03Run(20*time.Second, nil, bin, append(append(append(base, "extract"), storeArgs...), idxFile, out)...)
+	case "extract", "extract-k":
+		if c.Stale { // an older version of the file is in place
+			old := append([]byte{}, blob...)
+			for i := 0; i < 1+len(old)/50; i++ {
+				old[rnd.Intn(len(old))] ^= 0x5a
+			}
+			os.WriteFile(out, old, 0644)
+		}
+		args := []string{"extract"}
+		if c.Cmd == "extract-k" {
+			args = append(args, "-k")
+		}
+		if c.PrintStats {
+			args = append(args, "--print-stats")
+		}
+		var buf bytes.Buffer
+		c.Exit = run(&buf, append(append(args, storeArgs...), idxFile, out)...)
 		got, _ := os.ReadFile(out)
 		c.Same = bytes.Equal(got, blob)
 		if c.Exit == 0 && c.Same && !c.Skip {
@@ -337,22 +445,45 @@ func c03CLIOne(e *c03Env, rnd *vh.Rand, bin string, c *c03CLICase, n int) error 
 		}
 	case "cat":
 		var buf bytes.Buffer
-		c.Exit = c03Run(20*time.Second, &buf, bin, append(append(append(base, "cat"), storeArgs...), idxFile)...)
+		c.Exit = run(&buf, append(append([]string{"cat"}, storeArgs...), idxFile)...)
 		c.Same = bytes.Equal(buf.Bytes(), blob)
+	case "cat-range":
+		// the range covers the damaged chunk
+		start := 0
+		for i := 0; i < c.Target; i++ {
+			start += c.Sizes[i]
+		}
+		off := rnd.Intn(start + 1)
+		length := start - off + 1 + rnd.Intn(len(blob)-start)
+		var buf bytes.Buffer
+		c.Exit = run(&buf, append(append([]string{"cat", "-o", fmt.Sprint(off), "-l", fmt.Sprint(length)}, storeArgs...), idxFile)...)
+		c.Same = bytes.Equal(buf.Bytes(), blob[off:off+length])
 	case "untar":
-		out := filepath.Join(work, "out")
 		os.MkdirAll(out, 0755)
-		c.Exit = c03Run(20*time.Second, nil, bin, append(append(append(base, "untar", "-i", "--no-same-owner"), storeArgs...), idxFile, out)...)
+		c.Exit = run(nil, append(append([]string{"untar", "-i", "--no-same-owner"}, storeArgs...), idxFile, out)...)
 		c.Same = c03SameTree(c03Tree(out), srcTree)
+	case "cache":
+		// copy the chunks of the index into another store: exit 0 => every chunk is there and verifies
+		c.Exit = run(nil, append(append([]string{"cache"}, storeArgs...), "-c", cache, idxFile)...)
+		c.Same = true
+		if cs, err := desync.NewLocalStore(cache, desync.StoreOptions{Uncompressed: c.Unc}); err == nil {
+			for _, sid := range ids {
+				var id desync.ChunkID
+				copy(id[:], vh.UnHex(sid))
+				if _, err := cs.GetChunk(id); err != nil {
+					c.Same = false
+				}
+			}
+		}
 	}
 	if c.Exit != 0 {
 		c.Stderr = c03LastStderr
 	}
 	bad := c.Plant != "good"
-	e.r.Count(fmt.Sprintf("cli|%s|%v|%s|%s|%v", c.Cmd, c.Unc, c.Plant, c.Where, c.Skip), bad)
+	e.r.Count("cli|"+c.options()+fmt.Sprintf("|%v|%s", c.Unc, c.Plant), bad)
 	e.r.Dist("cli:" + c.Cmd)
 	e.r.Dist("cli-plant:" + c.Plant)
-	e.r.Dist("cli-where:" + c.Where)
+	e.r.Dist("cli-damaged:" + c.Damaged + "/cache-option:" + c.Cache)
 	if c.Exit == 0 {
 		e.r.Dist("cli-exit:0")
 	} else {
@@ -360,18 +491,22 @@ func c03CLIOne(e *c03Env, rnd *vh.Rand, bin string, c *c03CLICase, n int) error 
 	}
 	if c.Exit == -2 {
 		e.hangs[c.Cmd]++
-		e.r.Fail("predicate", "cli/"+c.Cmd+"-hangs", fmt.Sprintf("desync %s did not finish within the timeout (planted %s in %s)", c.Cmd, c.Plant, c.Where), c)
+		e.r.Fail("predicate", "cli/"+c.Cmd+"-hangs", fmt.Sprintf("%s did not finish within the timeout (planted %s in the %s)", c.Args, c.Plant, c.Damaged), c)
 		return nil
 	}
-	if c.Skip {
-		return nil
+	if c.Skip || c.CacheSkip && c.Damaged == "cache" {
+		return nil // verification explicitly disabled for the store that holds the damage
 	}
 	if c.Exit == 0 && !c.Same {
+		what := "its output differs from the indexed data"
+		if c.Cmd == "cache" {
+			what = "the target store lacks a chunk of the index or holds one that does not verify"
+		}
 		e.r.Fail("predicate", "cli/"+c.Cmd+"-emits-wrong-bytes",
-			fmt.Sprintf("desync %s exited 0 but its output differs from the indexed data (planted %s in %s, uncompressed=%v)", c.Cmd, c.Plant, c.Where, c.Unc), c)
+			fmt.Sprintf("`desync %s` exited 0 but %s (%s planted in the %s, uncompressed=%v)", c.options(), what, c.Plant, c.Damaged, c.Unc), c)
 	}
 	if c.Plant == "good" && c.Exit != 0 {
-		e.r.Fail("corr", "corr:C03/cli-good-store-fails", fmt.Sprintf("desync %s fails on an intact store (exit %d)", c.Cmd, c.Exit), c)
+		e.r.Fail("corr", "corr:C03/cli-good-store-fails", fmt.Sprintf("`desync %s` fails on an intact store (exit %d): %s", c.options(), c.Exit, c.Stderr), c)
 	}
 	return nil
 }
